@@ -12,6 +12,7 @@ import (
 	"sort"
 	"strconv"
 	"strings"
+	"sync"
 
 	"verif/harness/core"
 	"verif/harness/g7lib"
@@ -106,6 +107,7 @@ func judge(r *core.Run, env *g7lib.Env, ev *g7lib.Evaluator, q *g7lib.Query, nam
 	case res.Panic != nil:
 		r.Eval(1)
 		w.Mode, w.Error = "panic", res.Panic.Value
+		dump(res.Panic.Sig(), w)
 		r.Violation(res.Panic.Sig(), w)
 		return
 	case res.TimedOut:
@@ -118,6 +120,7 @@ func judge(r *core.Run, env *g7lib.Env, ev *g7lib.Evaluator, q *g7lib.Query, nam
 		}
 		r.Eval(1)
 		w.Mode, w.Error = "error", res.Err.Error()
+		dump(classifyError(q, res.Err), w)
 		r.Violation(classifyError(q, res.Err), w)
 		return
 	}
@@ -147,7 +150,28 @@ func judge(r *core.Run, env *g7lib.Env, ev *g7lib.Evaluator, q *g7lib.Query, nam
 	w.Mode, w.Extra, w.Missing, w.Note = d.Mode, d.Extra, d.Missing, d.Note
 	w.Actual = core.CanonRows(res.Rows)
 	w.Plan = env.Sess.Plan(text)
-	r.Violation(classify(q, d, w), w)
+	sig := classify(q, d, w)
+	dump(sig, w)
+	r.Violation(sig, w)
+}
+
+var dumpMu sync.Mutex
+
+// dump appends every violating case to $G7_DUMP (construction aid for clustering; off by default).
+func dump(sig string, w *witness) {
+	path := os.Getenv("G7_DUMP")
+	if path == "" {
+		return
+	}
+	dumpMu.Lock()
+	defer dumpMu.Unlock()
+	f, err := os.OpenFile(path, os.O_APPEND|os.O_CREATE|os.O_WRONLY, 0o644)
+	if err != nil {
+		return
+	}
+	defer f.Close()
+	b, _ := json.Marshal(map[string]any{"signature": sig, "count": 1, "witness": w})
+	f.Write(append(b, '\n'))
 }
 
 // classifyError gives an engine error on a valid query of the fragment its signature: error class,
